@@ -13,6 +13,7 @@ import (
 
 	"github.com/anishathalye/porcupine"
 	"github.com/go-logr/logr"
+	metav1 "k8s.io/apimachinery/pkg/apis/meta/v1"
 	"k8s.io/apimachinery/pkg/apis/meta/v1/unstructured"
 	kruntime "k8s.io/apimachinery/pkg/runtime"
 	"k8s.io/apimachinery/pkg/runtime/schema"
@@ -215,6 +216,12 @@ func (l *xrLister) List(_ context.Context, list client.ObjectList, _ ...client.L
 	ul.Items = nil
 	for i, refs := range l.w.xrRefs {
 		u := unstructured.Unstructured{Object: map[string]any{"apiVersion": "example.org/v1", "kind": "XThing", "metadata": map[string]any{"name": fmt.Sprintf("x%d", i)}}}
+		if l.w.xrTerminating[i] {
+			// being deleted (a finalizer keeps it): it still exists and still references its resources
+			u.SetFinalizers([]string{"composite.apiextensions.crossplane.io"})
+			ts := metav1.NewTime(time.Date(2000, 1, 1, 0, 0, 0, 0, time.UTC))
+			u.SetDeletionTimestamp(&ts)
+		}
 		var rs []any
 		for _, k := range refs {
 			rs = append(rs, map[string]any{"apiVersion": k.GroupVersion().String(), "kind": k.Kind, "name": "n"})
@@ -255,20 +262,22 @@ type opOut struct {
 }
 
 type world struct {
-	s         *sim.Sim
-	proc      *sim.Proc
-	eng       *engine.ControllerEngine
-	cache     *fakeCache
-	mgr       *fakeMgr
-	ctrls     []*fakeCtrl
-	nreg      int
-	clock     int64
-	hist      []opRec
-	xrRefs    [][]schema.GroupVersionKind
-	wait      map[*simsync.RWMutex]int
-	names     map[*simsync.RWMutex]string
-	quiet     bool // sequential probe phase: no yields
-	removedAt map[schema.GroupVersionKind]int64
+	s             *sim.Sim
+	proc          *sim.Proc
+	eng           *engine.ControllerEngine
+	cache         *fakeCache
+	mgr           *fakeMgr
+	ctrls         []*fakeCtrl
+	nreg          int
+	clock         int64
+	hist          []opRec
+	xrRefs        [][]schema.GroupVersionKind
+	xrTerminating map[int]bool
+	endCh         chan struct{}
+	wait          map[*simsync.RWMutex]int
+	names         map[*simsync.RWMutex]string
+	quiet         bool // sequential probe phase: no yields
+	removedAt     map[schema.GroupVersionKind]int64
 }
 
 func (w *world) yield(seam, key string) {
@@ -335,7 +344,12 @@ func (c *startCapture) Start(ctx context.Context) error {
 	c.fakeCtrl.ctx = ctx
 	c.fakeCtrl.started = true
 	c.fakeCtrl.mu.Unlock()
-	<-ctx.Done()
+	select {
+	case <-ctx.Done():
+	case <-c.fakeCtrl.w.endCh:
+		// the run is over and nothing cancelled this controller: reported by
+		// the final check; let the goroutine go so that the bubble can end
+	}
 	return nil
 }
 
@@ -346,7 +360,7 @@ func watchFor(gvk schema.GroupVersionKind, wt engine.WatchType) engine.Watch {
 }
 
 func (prop) Run(t *testing.T, s *sim.Sim, res *runner.Result) {
-	w := &world{s: s, proc: s.NewProc("core"), wait: map[*simsync.RWMutex]int{}, names: map[*simsync.RWMutex]string{}, removedAt: map[schema.GroupVersionKind]int64{}}
+	w := &world{s: s, proc: s.NewProc("core"), wait: map[*simsync.RWMutex]int{}, names: map[*simsync.RWMutex]string{}, removedAt: map[schema.GroupVersionKind]int64{}, xrTerminating: map[int]bool{}, endCh: make(chan struct{})}
 	elected := make(chan struct{})
 	close(elected)
 	w.mgr = &fakeMgr{elected: elected, scheme: kit.Scheme()}
@@ -371,6 +385,9 @@ func (prop) Run(t *testing.T, s *sim.Sim, res *runner.Result) {
 			}
 		}
 		w.xrRefs = append(w.xrRefs, refs)
+		if tp.Next(3) == 0 {
+			w.xrTerminating[i] = true
+		}
 	}
 	var descr []string
 	for c := 0; c < nClients; c++ {
@@ -483,6 +500,7 @@ func (prop) Run(t *testing.T, s *sim.Sim, res *runner.Result) {
 	w.quiet = true
 	w.checkLinearizable()
 	w.checkQuiescent(infs)
+	w.checkForgotten()
 	if len(s.Violations) == 0 {
 		w.probeReestablish(infs)
 		w.probeCollector(lister)
@@ -553,6 +571,26 @@ func (w *world) stopAll() {
 	w.quiet = true
 	for _, n := range append([]string{"composite/probe"}, ctrlNames...) {
 		_ = w.eng.Stop(context.Background(), n)
+	}
+	close(w.endCh)
+}
+
+// checkForgotten: a controller the engine no longer reports as running is not
+// running - its context was cancelled. (A controller that keeps running after
+// the engine has forgotten it can never be stopped again.)
+func (w *world) checkForgotten() {
+	for _, n := range ctrlNames {
+		if w.eng.IsRunning(n) {
+			continue
+		}
+		for _, c := range w.ctrls {
+			if c.name != n {
+				continue
+			}
+			if ctx, started := c.context(); started && ctx.Err() == nil {
+				w.s.Violate("C13/controller-forgotten-while-running", fmt.Sprintf("controller %s is reported not running, but a controller started under that name was never cancelled", n))
+			}
+		}
 	}
 }
 
